@@ -3,6 +3,7 @@ package props
 import (
 	"bytes"
 	"fmt"
+	"io"
 	"os"
 	"path"
 	"runtime"
@@ -116,6 +117,9 @@ var c11Model = porcupine.Model{
 				want.Err = true
 			} else {
 				want.Data = string(n.Content)
+				if op.Kind == "peek" && len(want.Data) > op.Size {
+					want.Data = want.Data[:op.Size] // a prefix read followed by an early Close
+				}
 			}
 		case "readdir":
 			// a directory handle lists whatever lies below its path at the time of the call
@@ -195,11 +199,26 @@ type c11Rec struct {
 }
 
 // c11Exec runs one program call against the filesystem and records the history entries.
+// c11Gate: while finding F-11 is open a handle that was read only in part keeps the drive
+// and deadlocks any call that needs it, so a peek (open, prefix read, early Close) excludes
+// the other clients' calls until its Close has returned; they arrive right behind it, while
+// the handle's restore goroutine is still winding down.
+var c11Gate sync.RWMutex
+
 func c11Exec(fsys *world.World, client int, op c11Op, clock *int64, rec func(c11Rec)) *observe.HangError {
 	var hang *observe.HangError
+	gated := guard("F-11")
+	if gated && op.Kind == "peek" {
+		c11Gate.Lock()
+		defer c11Gate.Unlock()
+	}
 	do := func(call string, f func() c11Out) {
 		if hang != nil {
 			return
+		}
+		if gated && op.Kind != "peek" {
+			c11Gate.RLock()
+			defer c11Gate.RUnlock()
 		}
 		r := c11Rec{client: client, in: c11In{Call: call, Op: op}}
 		r.call = atomic.AddInt64(clock, 1)
@@ -230,7 +249,7 @@ func c11Exec(fsys *world.World, client int, op c11Op, clock *int64, rec func(c11
 			}
 			do("commit", func() c11Out { return c11Out{Err: h.Close() != nil} })
 		}
-	case "get":
+	case "get", "peek":
 		var h afero.File
 		kind := ""
 		do("open", func() c11Out {
@@ -251,6 +270,15 @@ func c11Exec(fsys *world.World, client int, op c11Op, clock *int64, rec func(c11
 				defer h.Close()
 				if kind != "file" {
 					return c11Out{Err: true}
+				}
+				if op.Kind == "peek" {
+					// a prefix of the content, then Close before the stream has ended
+					buf := make([]byte, op.Size)
+					n, err := io.ReadFull(h, buf)
+					if err != nil && err != io.EOF && err != io.ErrUnexpectedEOF {
+						return c11Out{Err: true}
+					}
+					return c11Out{Data: string(buf[:n])}
 				}
 				// one Read call with a buffer larger than any generated content: the stream is
 				// consumed to its end inside the call (finding F-11)
@@ -334,7 +362,11 @@ func c11Run(f failer, cfg world.Cfg, c c11Case) {
 		probe.Yield = func(seam string) {
 			x := (sched + atomic.AddUint64(&ctr, 1)) * 0x9E3779B97F4A7C15
 			x ^= x >> 29
-			switch x % 8 {
+			k := x % 8
+			if (seam == world.SeamCloseReader || seam == world.SeamCloseWriter) && k >= 4 {
+				k = 2 // the release of the drive is where hand-overs between clients happen
+			}
+			switch k {
 			case 0, 1:
 				runtime.Gosched()
 			case 2:
@@ -511,11 +543,11 @@ func TestC11(t *testing.T) {
 					}
 					for k := 0; k < rapid.IntRange(1, 4).Draw(t, "len"); k++ {
 						p := rapid.SampledFrom(watch).Draw(t, "p")
-						kind := rapid.SampledFrom([]string{"stat", "stat", "get", "list"}).Draw(t, "kind")
+						kind := rapid.SampledFrom([]string{"stat", "stat", "get", "list", "peek"}).Draw(t, "kind")
 						if kind == "list" {
 							p = path.Dir(p)
 						}
-						prog = append(prog, c11Op{Kind: kind, Path: p})
+						prog = append(prog, c11Op{Kind: kind, Path: p, Size: 1})
 					}
 				}
 				c.Programs = append(c.Programs, prog)
@@ -533,7 +565,7 @@ func TestC11(t *testing.T) {
 			var prog []c11Op
 			n := rapid.IntRange(1, 4).Draw(t, "len")
 			for k := 0; k < n; k++ {
-				kind := rapid.SampledFrom([]string{"put", "put", "get", "mkdir", "remove", "rename", "chmod", "chown", "chtimes", "stat", "list", "get", "list", "mkdirall", "mkdirall", "removeall"}).Draw(t, "kind")
+				kind := rapid.SampledFrom([]string{"put", "put", "get", "mkdir", "remove", "rename", "chmod", "chown", "chtimes", "stat", "list", "get", "list", "mkdirall", "mkdirall", "removeall", "peek", "peek"}).Draw(t, "kind")
 				op := c11Op{Kind: kind}
 				switch kind {
 				case "put":
@@ -561,6 +593,9 @@ func TestC11(t *testing.T) {
 					op.Path = rapid.SampledFrom(append(shared, own...)).Draw(t, "p")
 				case "list":
 					op.Path = rapid.SampledFrom([]string{"/", "/s", "/s/d1"}).Draw(t, "dir")
+				case "peek":
+					op.Path = rapid.SampledFrom(any).Draw(t, "p")
+					op.Size = rapid.SampledFrom([]int{1, 1, 7, 100, 700}).Draw(t, "peek")
 				default:
 					op.Path = rapid.SampledFrom(any).Draw(t, "p")
 				}
